@@ -15,6 +15,9 @@ from mc import cliworld as CW
 from mc import e2
 from mc import simsched
 
+from mc import localchecks
+from mc.localchecks import expand as local_expand  # noqa: F401 (looked up by name in the workers)
+
 ID = "C07"
 LEVEL = "model_checking"
 
@@ -131,6 +134,8 @@ def run(ctx):
         w0 = CW.init_world(wfname, backend)
         e2.bfs(ctx, me, "expand", [w0], depth, chunk=4, meta=meta)
         done.append(dict(meta, depth=depth))
+    local_done = localchecks.run_local(ctx, me, ID, [("diamond", 4), ("shortcut", 4)] if ctx.tier == "quick" else [("diamond", 6), ("shortcut", 6), ("fork", 6)])
+    ctx.notes.setdefault("coverage_extra", {})["local_backend"] = local_done
     ctx.traces_validated = ctx.acc.extra["transitions"]
     ctx.rule = "state = canonical world incl. the scheduler's job table; every reachable state is checked for every pending job; non-trivial = distinct canonical state"
     ctx.bound = dict(configs=done, prerequisites_per_job="1..2 (diamond D has two, B/C share A; earlier-invocation prerequisites via run X then run)")
@@ -139,6 +144,8 @@ def run(ctx):
 
 
 def replay(case):
+    if case.get("kind") == "local":
+        return localchecks.replay(case)
     from mc.runner import Acc
 
     meta = case["meta"]
